@@ -280,7 +280,7 @@ def gen_session(rng, conf, nops, mutating=True, file_io=True, mount="mount 1 0 l
 class Judged:
     def __init__(self, script, ops, jlines):
         self.script = script; self.ops = ops
-        self.crash = []; self.crash_checks = 0; self.regions = {}; self.target_file = {}; self.tainted = None; self.dirty = {}; self.verdicts = {}; self.wf = {}; self.mismatch = []; self.info = {}; self.unparsed = []
+        self.marks = {}; self.crash = []; self.crash_checks = 0; self.regions = {}; self.target_file = {}; self.tainted = None; self.dirty = {}; self.verdicts = {}; self.wf = {}; self.mismatch = []; self.info = {}; self.unparsed = []
         for l in jlines:
             t = l.split(" ")
             if t[0] == "O": self.verdicts[int(t[1])] = (t[2], t[3] if len(t) > 3 else "")
@@ -292,6 +292,7 @@ class Judged:
             elif t[0] == "T": self.tainted = int(t[1])
             elif t[0] == "R": self.regions.setdefault(int(t[1]), []).append((t[2], t[3], int(t[4]), int(t[5]), int(t[6]), int(t[7])))
             elif t[0] == "F": self.target_file[int(t[1])] = int(t[2])
+            elif t[0] == "K": self.marks[int(t[1])] = t[2]
             elif t[0] == "C": self.crash.append((int(t[1]), int(t[2]), t[3]))
             elif t[0] == "N": self.crash_checks = int(t[2])
 
